@@ -886,7 +886,7 @@ def run(ctx):
 
 def _run(ctx, tmp):
     rng = ctx.rng
-    nlay = ctx.n(260, 5000)
+    nlay = ctx.n(260, 2000)
     work = []   # (layout, runs, imgs)
     for i in range(nlay):
         lay = gen_layout(rng)
@@ -904,7 +904,10 @@ def _run(ctx, tmp):
     plines, pwant = path_stream(rng, ctx.n(3000, 60000))
     model = None
     if ctx.lean_ok:
+        import time
+        t0 = time.time()
         model = ctx.driver('C16', lines + plines + MALFORMED)
+        ctx.notes['driver'] = '%d lines, %d bytes, %.1f s' % (len(lines) + len(plines) + len(MALFORMED), sum(map(len, lines)), time.time() - t0)
     reported = set()
     pos = 0
     for lay, runs, imgs in work:
@@ -953,6 +956,7 @@ def _run(ctx, tmp):
                                   'found no failing input on this run (theorems of Pyc/Props/C16.lean no longer describe the code)'
                                   % (corr[1], names, run), dict(kind='correspondence', layout=lay, run=run, imgs=imgs, signature=corr[0]),
                                   found_input=False)
+    ctx.violations.sort(key=lambda v: not v['found_input'])   # replays with a failing input first
     if model is not None:
         got = model[pos:pos + len(plines)]
         for ln, w, g in zip(plines, pwant, got):
